@@ -144,7 +144,21 @@ def decl(c):
     else:
         body = "(" + ", ".join("pub P" for _ in range(n)) + ");"
         init = "S(" + ", ".join(f"P({i + 1})" for i in range(n)) + ")"
-    return f"#[derive(derive_more::{D})]\n{attr}pub struct S{body}", init
+    text = f"#[derive(derive_more::{D})]\n{attr}pub struct S{body}"
+    if named and c["hasAttr"] and "_fa" not in c and vlib.seeded_pick(text, 43, 3) == 0:
+        # the same struct GENERATED BY A macro_rules! MACRO: the derive and the attribute's name are written in the macro's body,
+        # the attribute's content (literal and arguments) and the field names are passed in by the caller - so every name the
+        # user wrote lives in ONE hygiene context, as it does for `format!` called the same way, and the expansion's own
+        # identifiers in another. An expansion that rebuilds a field's identifier from the placeholder's TEXT loses the
+        # field's context.
+        names = [fad(c), "b"][:n]
+        content = f"{vlib.rust_lit(literal(c))}{args_text(c)}"
+        mbody = f"#[derive(derive_more::{D})]\n#[{ATTR[D]}($($at)*)]\npub struct S{body}"
+        for i, nm in enumerate(names):
+            mbody = mbody.replace(f"pub {nm}: P", f"pub $f{i}: P")
+        params = " ".join(f"$f{i}:ident" for i in range(n))
+        text = f"macro_rules! mk_s {{ ([$($at:tt)*] {params}) => {{ {mbody} }} }}\nmk_s!([{content}] {' '.join(names)});"
+    return text, init
 
 
 def module(c, key, doc, specs):
